@@ -162,6 +162,34 @@ def compare(t, spec, src=None):
     return bad
 
 
+EXPRS = {"a+2*b": lambda a, b: a + 2 * b, "a*b": lambda a, b: a * b, "a-b": lambda a, b: a - b}
+
+
+def expr_queries(tabs):
+    """column expressions evaluate element-wise on the CURRENT columns of each table, whatever happened to tables sharing its arrays:
+    t['a+2*b'], t['a+2*b', row] and t.cols['a+2*b'] against numpy on t['a'], t['b'] as they are now.  Run after every step."""
+    bad = []
+    for j, t in enumerate(tabs):
+        if t._index != "name" or "a" not in t._col_names or "b" not in t._col_names:
+            continue
+        a, b = t._data["a"], t._data["b"]
+        for e, f in EXPRS.items():
+            try:
+                want = f(a, b)
+                got = t[e]
+                ok = len(got) == len(want) and all(x == y for x, y in zip(got, want))
+                if ok and len(t) > 0:
+                    ok = t[e, 0] == want[0]
+                if ok:
+                    got2 = t.cols[e][e]
+                    ok = len(got2) == len(want) and all(x == y for x, y in zip(got2, want))
+                if not ok:
+                    bad.append((j + 1, e, [dec(x) for x in got], [dec(x) for x in want]))
+            except Exception as ex:
+                bad.append((j + 1, e, "raised", repr(ex)[:100]))
+    return bad
+
+
 def worker(job, shard, nshards):
     g = job["graph"]
     states, edges, parent = g["states"], g["edges"], g["parent"]
@@ -181,8 +209,10 @@ def worker(job, shard, nshards):
         root, path = path_to(src)
         variant = VARIANTS[ei % len(VARIANTS)]
         tabs = [mk_table(s, variant) for s in states[root]]
+        expr_queries(tabs)
         for pi in path:
             execute(tabs, edges[pi][1], variant)
+            expr_queries(tabs)
         steps = [edges[i][1] for i in path] + [lab]
         stats["edges"] += 1
 
@@ -215,6 +245,12 @@ def worker(job, shard, nshards):
                      f"differs from the specification: {bad[:3]}", {"bad": repr(bad)[:1200]})
                 ok = False
                 break
+        if ok:
+            eb = expr_queries(tabs)
+            stats["expression_queries"] += 3 * len(tabs)
+            if eb:
+                fail(f"after {lab['a']}: column expression of table {eb[0][0]}: t[{eb[0][1]!r}] gives {eb[0][2]}, element-wise on its current columns it is {eb[0][3]}", {"bad": repr(eb)[:800]})
+                ok = False
         if ok and len(heap) > 1:
             stats["nontrivial"] += 1
         if ok and len(samples) < 2 and len(steps) >= 3:
